@@ -487,6 +487,57 @@ def run_case(case, ctx):
                         ctx.violation(K + "debug/union-member-input", "a FeatureUnion member's recorded input is not "
                                       "the union's input", cfg=cfg)
                         break
+    # ---- a second alter_pipeline_for_debugging on the same pipeline is refused (documented); the pipeline keeps
+    # working and keeps its outputs
+    if calls:
+        try:
+            alter_pipeline_for_debugging(pipe)
+            ctx.excluded("second alteration accepted")
+        except AssertionError:
+            ctx.hit("debug.second_alter_refused")
+        except Exception as e:
+            ctx.violation(K + "debug/second-alter/raised/%s" % type(e).__name__, "the second call is documented to "
+                          "raise AssertionError, got %s: %s" % (type(e).__name__, str(e)[:120]), cfg=cfg)
+        for m in methods:
+            if before[m] is None:
+                continue
+            try:
+                out = numpy.asarray(getattr(pipe, m)(Xb))
+            except BaseException as e:  # noqa: B036 - RecursionError is a BaseException subclass of Exception anyway
+                if isinstance(e, (KeyboardInterrupt, SystemExit)):
+                    raise
+                ctx.violation(K + "debug/second-alter/pipeline-broken/%s" % type(e).__name__, "after a refused second "
+                              "alteration %s raises %s" % (m, type(e).__name__), cfg=cfg)
+                break
+            if not numpy.array_equal(out, before[m][1]):
+                ctx.violation(K + "debug/second-alter/output-changed", "%s differs after a refused second alteration"
+                              % m, cfg=cfg)
+                break
+    # ---- an input the pipeline refuses is refused in the same way once altered (the exception is the outcome)
+    if calls:
+        try:
+            twin = clone(pipe)
+            twin.fit(data, y)
+        except Exception:
+            twin = None
+        if twin is not None:
+            bads = {"not-fitted-width": (data.iloc[:, :1] if schema != "array" else data[:, :1]),
+                    "none": None}
+            for bname, Xbad in bads.items():
+                for m in methods:
+                    def outcome(obj):
+                        try:
+                            getattr(obj, m)(Xbad)
+                            return "returned"
+                        except Exception as e:
+                            return type(e).__name__
+                    a, b = outcome(twin), outcome(pipe)
+                    ctx.hit("debug.refused_input_same_outcome")
+                    if a != b:
+                        ctx.violation(K + "debug/refused-input/other-exception", "%s on an input the pipeline refuses "
+                                      "(%s): untouched pipeline -> %s, altered pipeline -> %s" % (m, bname, a, b),
+                                      cfg=cfg)
+                        break
     # ---- history: the altered pipeline is deep-copied and the copy is fitted again on other rows.  The copy still
     # answers like an untouched pipeline given the same fit, keeps its records on its own steps and leaves the
     # original's records alone
